@@ -191,6 +191,9 @@ func (p *Prop) Execute(c *sim.Case, env *sim.Env) *sim.Result {
 			}
 			want, other := ref(oo.Op)
 			res.Count("ops", 1)
+			if strings.HasPrefix(oo.Out, docpool.RepeatMismatch) {
+				verdict("repeat:"+oo.Op.Op, fmt.Sprintf("%s on doc %d: repeating the operation on the same reader gives different results\n  %s", oo.Op.Op, oo.Op.Doc, oo.Out))
+			}
 			if want != other {
 				a, b := sim.DiffContext(want, other)
 				verdict("map-order:"+oo.Op.Op, fmt.Sprintf("%s on doc %d alone in a fresh process gives different results under two map iteration orders\n  identity order: %s\n  seeded order:   %s",
